@@ -83,6 +83,13 @@ def ufunc_groups(rt, tier, rng):
                     G.append(dict(base, operands=[s, T(sb)]))
                     G.append(dict(base, operands=[T(sa, "float32"), s]))
                     G.append(dict(base, operands=[T(sa, "int64"), s]))
+            # a 0-d float64 / int64 ARRAY next to a tensor of lower precision: for NumPy it is a strongly typed operand (unlike a Python scalar); every spelling agrees on that
+            for v, adt in ((0.1, "float64"), (100, "int64"), (0.1, "float32")):
+                for tdt in ("float32", "float16", "int8"):
+                    G.append(dict(base, operands=[T((2, 3), tdt), A((), adt, val=v)]))
+                    G.append(dict(base, operands=[A((), adt, val=v), T((3,), tdt)]))
+                    if tdt == "float32":
+                        G.append(dict(base, operands=[T((2, 3), tdt), A((), adt, val=v)], mode="inplace"))
             # operands holding the special values 0, 1, 2 exactly (0-d / 1-element tensors and arrays): operator shortcuts must not drop them from the graph
             for v in (0.0, 1.0, 2.0, 3.0):
                 for sb in ((), (1,), (3,)):
@@ -215,6 +222,11 @@ def nodiff_tasks(rt):
                     Tn.append(dict(family="nodiff", fn=u, operands=ops, expect="raise", domain="pos", how="operator"))
             for ops in const:
                 Tn.append(dict(family="nodiff", fn=u, operands=ops, expect="array", domain="pos", how="operator"))
+        if u in ("remainder", "divmod"):
+            # x % y / divmod(x, y) with a non-constant tensor on either side: refused like every other spelling of the modulo family (never a silent plain array)
+            for ops in nonconst:
+                if ops[0]["kind"] == "tensor" or ops[1]["kind"] == "tensor":
+                    Tn.append(dict(family="nodiff", fn=u, operands=ops, expect="raise", domain="pos", how="operator"))
     templates = {
         "allclose": [[T((2, 3)), T((2, 3))], [T((2, 3)), A((2, 3))]], "isclose": [[T((2, 3)), T((3,))], [A((2, 3)), T((2, 3), const=True)]],
         "may_share_memory": [[T((2, 3)), T((2, 3))]], "shares_memory": [[T((2, 3)), A((2, 3))]], "shape": [[T((2, 3))], [T(())]],
